@@ -99,14 +99,15 @@ RAISE = {
     'TO': lambda who: TimeoutError(f'handler-raised timeout {who}'),
     'KE': lambda who: KeyError(f'boom {who}'),
     'RT': lambda who: RuntimeError(f'boom {who}'),
-    'ITO': lambda who: TimeoutError(f'inner timeout {who}'),  # sync handlers: plain TimeoutError
+    'ITO': lambda who: TimeoutError(f'inner timeout {who}'),
+    'CE': lambda who: RuntimeError(f'boom {who}'),  # sync handlers cannot await a cancelled future: plain error  # sync handlers: plain TimeoutError
 }
 
 
 _CUR_BUS: contextvars.ContextVar = contextvars.ContextVar('bvt_cur_bus', default=None)
 
 
-class ObservedBus(EventBus):
+class _ObservedMixin:
     """EventBus whose public dispatch() is logged, with a generated hash that pins all_instances order."""
 
     _bvt_world: Any = None
@@ -138,6 +139,18 @@ class ObservedBus(EventBus):
             raise
         w.rec('enq-ok', bus=self.name, ev=tag, same=(r is event))
         return r
+
+
+class ObservedBus(_ObservedMixin, EventBus):
+    pass
+
+
+class ObservedBusB(_ObservedMixin, EventBus):
+    """a second, sibling subclass of EventBus: applications do subclass the bus, and buses of different classes must
+    still exclude each other"""
+
+
+BUS_CLASSES = [ObservedBus, ObservedBusB]
 
 
 def short(v):
@@ -204,7 +217,7 @@ class World:
         self.next_tag += 1
         kw: dict[str, Any] = {}
         to = flags.get('to', (self.sc.get('timeouts') or {}).get(str(typ)))
-        kw['event_timeout'] = to
+        kw['event_timeout'] = float('inf') if to == 'inf' else to
         xp = flags.get('xp')
         if xp == 'fake':
             kw['event_parent_id'] = '01234567-89ab-cdef-0123-456789abcdef'
@@ -417,6 +430,7 @@ def make_handler(w: World, hi: int, hspec: dict):
         w.running[me] = {'awaiting': None, 'enter': len(w.trace)}
         w.rec('enter', bus=bus, ev=ev.tag, h=hi, same=w.events.get(ev.tag) is ev)
         how = 'return'
+        own_cancel = False
         try:
             pend: list[int] = []
             for oi, op in enumerate(prog):
@@ -445,6 +459,13 @@ def make_handler(w: World, hi: int, hspec: dict):
                         except TimeoutError as ex:
                             w.raised[me] = ex
                             raise
+                    if op[1] == 'CE':
+                        # the handler awaits something that was cancelled (a background task, a future): CancelledError
+                        # comes out of the handler although nobody cancelled the handler itself
+                        fut = loop.create_future()
+                        fut.cancel()
+                        own_cancel = True
+                        await fut
                     ex = RAISE[op[1]](list(me))
                     w.raised[me] = ex
                     raise ex
@@ -457,7 +478,17 @@ def make_handler(w: World, hi: int, hspec: dict):
                 w.rec('mark', bus=bus, ev=ev.tag, h=hi, op=oi)
             return retval(me)
         except asyncio.CancelledError:
-            how = 'cancelled'
+            how = 'raise-cancelled' if own_cancel else 'cancelled'
+            if own_cancel:
+                raise
+            if hspec.get('cleanup'):
+                # cooperative cancellation: the handler needs some time to unwind (async cleanup in a finally block)
+                w.rec('cleanup-begin', bus=bus, ev=ev.tag, h=hi)
+                try:
+                    await asyncio.sleep(hspec['cleanup'])
+                except asyncio.CancelledError:
+                    pass
+                w.rec('cleanup-end', bus=bus, ev=ev.tag, h=hi)
             raise
         except BaseException:
             how = 'raise'
@@ -745,7 +776,8 @@ def stall_limit(sc) -> float:
     def scan(x):
         nonlocal m
         if isinstance(x, (int, float)) and not isinstance(x, bool):
-            m = max(m, float(x))
+            if x != float('inf'):
+                m = max(m, float(x))
         elif isinstance(x, list):
             for y in x:
                 scan(y)
@@ -754,6 +786,7 @@ def stall_limit(sc) -> float:
                 scan(y)
 
     for h in sc.get('handlers', []):
+        scan(h.get('cleanup'))
         for op in h.get('prog', []):
             if op[0] == 'sleep':
                 scan(op[1])
@@ -798,7 +831,8 @@ def run_scenario(sc: dict, *, keep_world: bool = False, spin_budget: int = 60_00
             kw = {}
             if wal_ctx is not None and b.get('wal'):
                 kw['wal_path'] = wal_ctx.path_for(i)
-            bus = ObservedBus.__new__(ObservedBus)  # rank is needed by __hash__ during __init__ (WeakSet add)
+            bus_cls = BUS_CLASSES[int(b.get('cls', 0)) % len(BUS_CLASSES)]
+            bus = bus_cls.__new__(bus_cls)  # rank is needed by __hash__ during __init__ (WeakSet add)
             bus._bvt_rank = int(b.get('rank', i + 1))
             bus._bvt_world = w
             bus.__init__(name=f'B{i}', parallel_handlers=bool(b.get('par')), max_history_size=b.get('hist'), **kw)
